@@ -1,0 +1,60 @@
+//! Verification-only hooks. Compiled only with the cargo feature `verif`, which is off by
+//! default; nothing in here is reachable from a default build.
+//!
+//! * H1: [`StoreStats`] — read-only sizes of the builder's internal maps.
+//! * H2: [`scramble`] — lets a simulator choose the order in which the tile map is handed to the
+//!   sort in `TileManager::finish()`, instead of the per-process random order of `HashMap`.
+
+use std::cell::Cell;
+
+/// Sizes of the builder's internal maps (hook H1).
+#[derive(Debug, Clone, Copy, PartialEq, Eq, Default)]
+pub struct StoreStats {
+    /// number of tile ids known to the archive
+    pub ids: usize,
+    /// number of those ids whose content is held in memory
+    pub memory_backed_ids: usize,
+    /// number of contents held in memory
+    pub stored_contents: usize,
+    /// sum of the lengths of the contents held in memory
+    pub retained_bytes: usize,
+    /// number of per-content reference sets
+    pub reference_sets: usize,
+    /// sum of the sizes of all reference sets
+    pub references: usize,
+    /// number of reference sets that are empty
+    pub empty_reference_sets: usize,
+}
+
+thread_local! {
+    static SCRAMBLE_SEED: Cell<Option<u64>> = const { Cell::new(None) };
+}
+
+/// Sets (or clears) the seed that decides the order in which `finish()` sees its tiles before
+/// sorting them (hook H2). Thread-local; `None` (the default) leaves the order alone.
+pub fn set_scramble_seed(seed: Option<u64>) {
+    SCRAMBLE_SEED.with(|s| s.set(seed));
+}
+
+fn splitmix(state: &mut u64) -> u64 {
+    *state = state.wrapping_add(0x9E37_79B9_7F4A_7C15);
+    let mut z = *state;
+    z = (z ^ (z >> 30)).wrapping_mul(0xBF58_476D_1CE4_E5B9);
+    z = (z ^ (z >> 27)).wrapping_mul(0x94D0_49BB_1331_11EB);
+    z ^ (z >> 31)
+}
+
+/// Orders `items` by key and then permutes them with the thread's scramble seed, so that the
+/// order is a pure function of (keys, seed). No-op when no seed is set.
+pub(crate) fn scramble<T>(items: &mut [(u64, T)]) {
+    let Some(seed) = SCRAMBLE_SEED.with(Cell::get) else {
+        return;
+    };
+    items.sort_by_key(|a| a.0);
+    let mut state = seed;
+    for i in (1..items.len()).rev() {
+        #[allow(clippy::cast_possible_truncation)]
+        let j = (splitmix(&mut state) % (i as u64 + 1)) as usize;
+        items.swap(i, j);
+    }
+}
